@@ -1,8 +1,8 @@
 (* C13/Fast.v -- stage 3: what the comparator needs for tables of tens of thousands of rows (cluster ids near 65535):
    printers (run-length encoded data, the list 0 .. n-1) and a linear fast path of the uuid checker, proved equal to
    the checker of Spec.v (which is quadratic: 65536 identifiers = 2 * 10^9 comparisons). *)
-From Coq Require Import ZArith List Bool Lia.
-From PV Require Import Base.Tok C13.Spec.
+From Coq Require Import ZArith List Bool String Lia.
+From PV Require Import Base.Tok C04.Model C13.Model C13.Spec.
 Import ListNotations.
 Open Scope list_scope.
 Open Scope Z_scope.
@@ -35,3 +35,16 @@ Proof.
   unfold uuids_fast, uuids_b. f_equal. destruct (zl_eqb ids _) eqn:E; [|reflexivity].
   apply zl_eqb_true in E. symmetry. apply nodup_b_spec. rewrite E. apply zrange_nodup.
 Qed.
+
+(* compress_spikes_dtypes alone, on the .npy files of a directory: for attribute in ['templates', 'clusters'] -- the first
+   file matching spikes.<attribute>.*npy is re-saved as uint16; StopIteration (None) when a glob matches nothing.  The
+   second component is the directory as it is left: after a StopIteration on 'clusters' the templates file is
+   already converted. *)
+Definition compress_model (fs : files) : option files * files :=
+  match compress_first "spikes.templates." fs with
+  | None => (None, fs)
+  | Some f2 => match compress_first "spikes.clusters." f2 with
+               | None => (None, f2)
+               | Some f3 => (Some f3, f3)
+               end
+  end.
